@@ -641,7 +641,7 @@ func (x *Exec) callContract(call *ast.CallExpr, c *Contract, obj *types.Func, fi
 	penv := &CEnv{X: x, Names: post, St: st, Pkg: pkg, Old: oldEnv}
 	x.wrapCfail("postcondition of "+c.Key, func() {
 		for _, e := range c.Ensures {
-			x.assume(st, penv.Formula(e.Expr))
+			x.assume(st, penv.HypFormula(e.Expr))
 		}
 	})
 	if !nowf {
